@@ -358,3 +358,10 @@ Theorem delete_nonindex_total : forall addr ideal s xp,
   snd (sxstep addr ideal (s', xp') XGet) = o_undef /\
   snd (sxstep addr ideal (s', xp') XHas) = o_bool false.
 Proof. intros. cbn. destruct addr; cbn; repeat split. Qed.
+
+(* a write through a by-value element never changes the container, in otto's
+   machine and in the ideal one, and is never answered with plain success *)
+Theorem elem_write_refused : forall ideal st try cell v,
+  fst (pxstep ideal st (PWriteElem try cell v)) = st /\
+  snd (pxstep ideal st (PWriteElem try cell v)) <> o_ok.
+Proof. intros. destruct ideal, try; cbn; split; auto; discriminate. Qed.
